@@ -720,8 +720,17 @@ class Engine:
                 work.append(st)
             if st.status == "done" and not init and len(self.witnesses) < self.want_witnesses and not self.probe_depth:
                 # translator validation: a concrete input that drives the real code down this completed path
-                if self.check(st) == "sat":
-                    self.witnesses.append({"replay": self.model_vals(st), "reached": list(st.reached)})
+                saved = self.timeout_ms
+                self.timeout_ms = 2000
+                self.solver.set("timeout", 2000)
+                try:
+                    if self.check(st) == "sat":
+                        self.witnesses.append({"replay": self.model_vals(st), "reached": list(st.reached)})
+                    else:
+                        self.want_witnesses = 0      # too expensive here: do not try again in this job
+                finally:
+                    self.timeout_ms = saved
+                    self.solver.set("timeout", saved)
             if st.status in ("done", "panic"):
                 self.paths += 1
                 for r in st.reached:
